@@ -228,3 +228,93 @@ def check_dispatch_keys(ctx, repo: Repo, pid: str, module_names: List[str], repo
     if bad == 0:
         ctx.ok("DISPATCHKEY", f"{pid}.dispatchkey", f"every string key handled for a selector parameter ({n} key/function pairs) is one that "
                "callers actually pass (positive control matched)", ", ".join(module_names)[:160])
+
+
+# ---------------------------------------------------------------------------------------------------------------------------
+# INDEXTRUTH: emptiness of an index array tested through its VALUES
+
+IT_CONTROL = '''
+def control(x):
+    hits = np.where(x > 5)[0]
+    if hits.any():
+        x[hits] = 5
+    sel = np.flatnonzero(x < 0)
+    if len(sel) > 0:
+        x[sel] = 0
+    return x
+'''
+
+_INDEX_FUNCS = ("np.where", "numpy.where", "np.nonzero", "numpy.nonzero", "np.argwhere", "numpy.argwhere", "np.flatnonzero", "numpy.flatnonzero")
+
+
+def _is_index_array(e, local_idx) -> bool:
+    """np.where(c)[k] / np.nonzero(c)[k] / c.nonzero()[k] / np.flatnonzero(c) / np.argwhere(c), or a local name that only ever holds one"""
+    if isinstance(e, ast.Name):
+        return e.id in local_idx
+    if isinstance(e, ast.Subscript) and isinstance(e.value, ast.Call):
+        c = e.value
+        d = ast.unparse(c.func)
+        if d in _INDEX_FUNCS[:4] and len(c.args) == 1 and not c.keywords:
+            return True
+        if isinstance(c.func, ast.Attribute) and c.func.attr == "nonzero" and not c.args:
+            return True
+    if isinstance(e, ast.Call) and ast.unparse(e.func) in _INDEX_FUNCS[4:] and len(e.args) == 1:
+        return True
+    return False
+
+
+def _index_truth(trees):
+    """-> (number of index arrays seen, [(where, relpath, text, name)] value-based emptiness tests of an index array)"""
+    seen, bad = 0, []
+    for rel, tree in trees:
+        for fn in [n for n in ast.walk(tree) if isinstance(n, (ast.FunctionDef, ast.AsyncFunctionDef))]:
+            stores = {}
+            for n in ast.walk(fn):
+                if isinstance(n, ast.Assign) and len(n.targets) == 1 and isinstance(n.targets[0], ast.Name):
+                    stores.setdefault(n.targets[0].id, []).append(n.value)
+                elif isinstance(n, (ast.AugAssign, ast.AnnAssign, ast.For, ast.NamedExpr)):
+                    t = n.target
+                    for nm in ast.walk(t):
+                        if isinstance(nm, ast.Name):
+                            stores.setdefault(nm.id, []).append(None)
+                elif isinstance(n, ast.Assign):
+                    for t in n.targets:
+                        for nm in ast.walk(t):
+                            if isinstance(nm, ast.Name) and isinstance(nm.ctx, ast.Store):
+                                stores.setdefault(nm.id, []).append(None)
+            params = {a.arg for a in fn.args.posonlyargs + fn.args.args + fn.args.kwonlyargs}
+            local_idx = {nm for nm, vs in stores.items() if nm not in params and all(v is not None and _is_index_array(v, ()) for v in vs)}
+            seen += sum(1 for n in ast.walk(fn) if not isinstance(n, ast.Name) and _is_index_array(n, ()))
+            for n in ast.walk(fn):
+                if not isinstance(n, ast.Call):
+                    continue
+                arg = None
+                if isinstance(n.func, ast.Attribute) and n.func.attr == "any" and not n.args and not n.keywords:
+                    arg = n.func.value
+                elif ast.unparse(n.func) in ("np.any", "numpy.any", "any") and len(n.args) == 1 and not n.keywords:
+                    arg = n.args[0]
+                if arg is not None and _is_index_array(arg, local_idx):
+                    bad.append((f"{rel}:{fn.name}", rel, ast.unparse(n), ast.unparse(arg)))
+    return seen, bad
+
+
+def check_index_truth(ctx, repo: Repo, pid: str, module_names: List[str], report_modules=None):
+    """INDEXTRUTH: `idx = np.where(cond)[0]; if idx.any(): ...` asks whether some INDEX is non-zero, not whether some element
+    satisfies the condition: when the only hit is element 0 the guarded statement is skipped.  The correct emptiness tests are
+    idx.size / len(idx) / cond.any()."""
+    s_, b_ = _index_truth([("<control>", ast.parse(IT_CONTROL))])
+    if s_ != 2 or [x[2] for x in b_] != ["hits.any()"]:
+        ctx.inconclusive("INDEXTRUTH", f"{pid}.indextruth.control", "positive control of the index-truthiness rule did not match", "<control>")
+        return
+    trees = [(repo.module(mn).relpath, repo.module(mn).tree) for mn in module_names]
+    seen, bad = _index_truth(trees)
+    rep = {repo.module(m).relpath for m in (report_modules or module_names) if m in repo.modules}
+    bad = [b for b in bad if b[1] in rep]
+    ctx.instance("INDEXTRUTH", seen + 1)
+    for where, rel, text, name in bad:
+        ctx.violate("INDEXTRUTH", f"{pid}.indextruth", f"`{text}` tests whether some INDEX in `{name}` is non-zero, not whether the index array is "
+                    "non-empty: when the only element selected is element 0 the guarded statements are skipped for it", where, text,
+                    witness=f"{name} = [0]  ->  {text} is False although one element is selected")
+    if not bad:
+        ctx.ok("INDEXTRUTH", f"{pid}.indextruth", f"no emptiness test of an index array ({seen} np.where/nonzero/flatnonzero index arrays in scope) goes "
+               "through the index VALUES (.any()); positive control matched", ", ".join(module_names)[:160])
